@@ -74,28 +74,6 @@ theorem cmtElem_stop (p : Nat) (tail : Str) : E 8 .nonAtomic cmtElem ⟨p, '}' :
   have hm : matchStr ['}', '}'] ⟨p, '}' :: '}' :: tail⟩ = some ⟨p + 2, tail⟩ := by simp [matchStr]
   exact Ev.seq_fail1 (F := 7) (Ev.negPred_fail (F := 6) (Ev.str_ok (F := 5) hm))
 
-theorem split_ws (c : Str) : c = c.takeWhile isPestWs ++ c.dropWhile isPestWs := (List.takeWhile_append_dropWhile).symm
-
-theorem takeWhile_ws (c : Str) : ∀ ch ∈ c.takeWhile isPestWs, isPestWs ch = true := by
-  induction c with
-  | nil => intro ch h; simp at h
-  | cons a c ih =>
-    intro ch h
-    by_cases ha : isPestWs a = true
-    · simp only [List.takeWhile, ha, List.mem_cons] at h
-      rcases h with rfl | h
-      · exact ha
-      · exact ih ch h
-    · simp [List.takeWhile, ha] at h
-
-theorem dropWhile_ws_head (c : Str) : c.dropWhile isPestWs = [] ∨ ∃ x r, c.dropWhile isPestWs = x :: r ∧ isPestWs x = false := by
-  cases h : c.dropWhile isPestWs with
-  | nil => left; rfl
-  | cons x r =>
-    right; refine ⟨x, r, rfl, ?_⟩
-    have := List.head_dropWhile_not isPestWs (l := c) (by simp [h])
-    simpa [h] using this
-
 /-- the remaining iterations of the body: up to the whitespace in front of the closing `}}` -/
 theorem cmtLoop (n : Nat) : ∀ (c tail : Str) (p : Nat), c.length ≤ n → CommentText c →
     ∃ k, k ≤ c.length ∧ (∀ ch ∈ c.drop k, isPestWs ch = true) ∧
